@@ -24,7 +24,7 @@ from harness.core import st
 from harness.oracles import snapshot
 
 ID = "C11"
-RULE = ("10 base types x all wrapper chains of length <= 2 x 6 positions + 6 'next to the bare type' positions (wrappers declared "
+RULE = ("11 base types x all wrapper chains of length <= 2 x 6 positions + 6 'next to the bare type' positions (wrappers declared "
         "in the defining or in another module; chains <= 2 for named bases, 1 otherwise) (exhaustive), chains of length 3 and random "
         "bases of U sampled; 9 inputs per program; root-position string / ForwardRef / bare-name-from-frame-depth forms; "
         "non-trivial = chain length >= 2, non-root position, or a non-object reference form; distinct by (base, chain, "
@@ -32,11 +32,11 @@ RULE = ("10 base types x all wrapper chains of length <= 2 x 6 positions + 6 'ne
 ASSUMPTIONS = ["Final only at the root and on class fields, ClassVar only at the root, NewType never directly over Optional/Union/Literal/TypedDict",
                "a partially qualified reference is not a resolvable reference and is not generated"]
 TECHNIQUE = "exhaustive enumeration of wrapper chains x positions + Hypothesis sampling; differential (metamorphic) oracle: routines for W(T) vs T on identical inputs, compared by class-exact snapshots"
-LEVEL_TEXT = ("All wrapper chains up to length 2 over 10 base types in 6 positions are enumerated on every run, longer chains and "
+LEVEL_TEXT = ("All wrapper chains up to length 2 over 11 base types in 6 positions are enumerated on every run, longer chains and "
               "random bases are sampled; each wrapped program is compared with the unwrapped one on valid, wire-form, corrupted "
               "and junk inputs through marshal, unmarshal and codec.")
 LEVEL_NOTE = "trusts that materialising both programs under identical module names makes class-exact snapshots comparable"
-EXHAUSTIVE_NOTE = "chains of length <= 2 x 10 bases x 6 positions, plus the 6 next-to-bare positions, complete on every run"
+EXHAUSTIVE_NOTE = "chains of length <= 2 x 11 bases x 6 positions, plus the 6 next-to-bare positions, complete on every run"
 
 S = U.S
 WRAPPERS = ["newtype", "alias", "stralias", "final", "classvar"]
@@ -60,6 +60,8 @@ def bases():
         "dict[str, Decimal]": {"k": "dict", "sp": "dict", "a": [S("str"), S("Decimal")]},
         "enum": en,
         "literal": {"k": "literal", "values": [1, "a", None]},
+        # written with the bare name: a string-valued alias of it reads "Literal['r', 'w']"
+        "literal-bare": {"k": "literal", "values": ["r", "w"], "sp": "bare"},
     }
 
 
